@@ -1,4 +1,5 @@
 import EmsModel.Core.Clip
+import EmsModel.Core.ClipSurvivors
 import EmsModel.Core.Polygons
 import EmsModel.Lemmas.Polygons
 /-!
@@ -286,6 +287,61 @@ theorem reference_followed (C B : List (List (Option Nat))) (keepF keepE : List 
   refine ⟨newIndex keepE e, updated_entry C keepF keepE f k e hlenC hf hkf (by omega) hke hc, ?_⟩
   exact updated_row B keepE colNewB e hlenB he
     (by simp [List.getD_eq_getElem?_getD, List.getElem?_eq_getElem (show e < keepE.length by omega), hke])
+
+/-! ### which nodes and edges survive -/
+
+theorem referencedBy_length (table : List (List (Option Nat))) (rowKeep : List Bool) (n : Nat) :
+    (referencedBy table rowKeep n).length = n := by
+  simp [referencedBy]
+
+/-- **An element survives iff a kept row names it** — no more (an edge both of whose nodes survive
+but which is a side of no kept face does not survive), no less. -/
+theorem referencedBy_spec (table : List (List (Option Nat))) (rowKeep : List Bool) (n c : Nat) :
+    (referencedBy table rowKeep n)[c]? = some true ↔
+      c < n ∧ ∃ r, r < table.length ∧ rowKeep.getD r false = true ∧ some c ∈ table.getD r [] := by
+  constructor
+  · intro h
+    have hc : c < n := by
+      have := (List.getElem?_eq_some_iff.mp h).1
+      simpa [referencedBy_length] using this
+    refine ⟨hc, ?_⟩
+    simp only [referencedBy, List.getElem?_map, List.getElem?_range hc, Option.map_some, Option.some.injEq,
+      List.any_eq_true, List.mem_filter, List.mem_range, List.contains_iff_mem] at h
+    obtain ⟨r, ⟨hr, hk⟩, hm⟩ := h
+    exact ⟨r, hr, hk, hm⟩
+  · rintro ⟨hc, r, hr, hk, hm⟩
+    simp only [referencedBy, List.getElem?_map, List.getElem?_range hc, Option.map_some, Option.some.injEq,
+      List.any_eq_true, List.mem_filter, List.mem_range, List.contains_iff_mem]
+    exact ⟨r, ⟨hr, hk⟩, hm⟩
+
+/-- **No reference of a kept row is lost**: when the surviving elements are those named by the kept rows,
+every entry that was present in a kept row is present in the clipped table (under the new numbering);
+only the entries that were missing stay missing. -/
+theorem no_reference_lost (table : List (List (Option Nat))) (rowKeep : List Bool) (n : Nat)
+    (r k x : Nat) (hlen : rowKeep.length = table.length) (hr : r < table.length)
+    (hk : rowKeep.getD r false = true) (hx : x < n) (he : table[r][k]? = some (some x)) :
+    ((updateConnectivity table rowKeep (renumber (referencedBy table rowKeep n)))[newIndex rowKeep r]?).bind (·[k]?) =
+      some (some (newIndex (referencedBy table rowKeep n) x)) := by
+  have hx' : x < (referencedBy table rowKeep n).length := by simpa [referencedBy_length] using hx
+  have hmem : some x ∈ table.getD r [] := by
+    have : table.getD r [] = table[r] := by simp [List.getD_eq_getElem?_getD, List.getElem?_eq_getElem hr]
+    rw [this]
+    exact List.mem_of_getElem? he
+  have hsome := (referencedBy_spec table rowKeep n x).mpr ⟨hx, r, hr, hk, hmem⟩
+  have hkx : (referencedBy table rowKeep n)[x] = true := by
+    rw [List.getElem?_eq_getElem hx'] at hsome
+    simpa using hsome
+  exact updated_entry table rowKeep (referencedBy table rowKeep n) r k x hlen hr hk hx' hkx he
+
+/-- non-vacuity: three faces in a row, the outer two kept.  All eight nodes survive, but the two sides of the
+middle face that join surviving nodes of *different* kept faces (edges 4 and 5) do not. -/
+example :
+    let faceNode := [[some 0, some 1, some 5, some 4], [some 1, some 2, some 6, some 5], [some 2, some 3, some 7, some 6]]
+    let faceEdge := [[some 0, some 1, some 2, some 3], [some 4, some 6, some 5, some 1], [some 7, some 8, some 9, some 6]]
+    let keepF := [true, false, true]
+    referencedBy faceNode keepF 8 = [true, true, true, true, true, true, true, true] ∧
+    referencedBy faceEdge keepF 10 = [true, true, true, true, false, false, true, true, true, true] := by
+  decide
 
 /-- non-vacuity: two triangles sharing an edge, the second face kept; its edge row points at its own nodes -/
 example :
